@@ -83,6 +83,7 @@ type c12aStats struct {
 	locks, keyshares, deposits, regs, combines, direct, foreignRejected, roundtrips int
 	createErr                                                                       error
 	evalKeys                                                                        []string
+	cnt                                                                             map[string]int // part (c) counters
 }
 
 func c12aAddr(kind byte, v int) string {
@@ -499,6 +500,11 @@ func c12aRunCase(t *testing.T, base string, c c12aCase) (viols []c12viol, st c12
 			bad("kind=combine-output-not-lock-key", "combine (--no-verify) succeeded on a lock whose validator group keys were exchanged: %s", why)
 		}
 	}
+
+	// ---- part (c): several copies of one artifact as input (zz_verif_c12copies_test.go) ----------------------------
+	if err := c12cCopies(t, ctx, dir, clusterDir, c, lock, lockBytes, shares, &viols, &st); err != nil {
+		return viols, st, fmt.Errorf("part (c) not (completely) run: %w", err)
+	}
 	return viols, st, nil
 }
 
@@ -679,7 +685,7 @@ func TestVerifC12a(t *testing.T) {
 		for _, k := range st.evalKeys {
 			r.Eval(c.String() + ":" + k)
 		}
-		r.Steps(1 + st.combines + st.foreignRejected)
+		r.Steps(1 + st.combines + st.foreignRejected + st.cnt["copies_combines_run"])
 		r.Count("clusters_created", 1)
 		r.Count("locks_verified", st.locks)
 		r.Count("roundtrips_stable", st.roundtrips)
@@ -689,6 +695,9 @@ func TestVerifC12a(t *testing.T) {
 		r.Count("subsets_recombined_by_combine", st.combines)
 		r.Count("subsets_recombined_directly", st.direct)
 		r.Count("combine_rejected_foreign_group_key", st.foreignRejected)
+		for k, v := range st.cnt {
+			r.Count(k, v)
+		}
 		if st.createErr != nil {
 			r.Count("clusters_created", -1)
 			r.Count("create_cluster_refused", 1)
